@@ -343,7 +343,7 @@ func c17StreamGarble(circ *circuit.Circuit, key []byte, seed uint64) (out []byte
 		return nil, err
 	}
 	for rep := 0; rep < 2; rep++ { // the same circuit twice in one stream, as the streamer does for cached circuits
-		if _, _, err = st.Garble(circ, in, outw); err != nil {
+		if err = streamingGarble(st, rep, circ, in, outw); err != nil {
 			return nil, err
 		}
 	}
